@@ -1,7 +1,7 @@
 SPECIFICATION HSpec
 CONSTANTS
   Paths = {"a", "b", "c"}
-  Contents = {"x", "y"}
+  Contents = {"x", "y", "z"}
   Canonical = TRUE
   MaxOps = 5
   PathRank <- RankDef
